@@ -672,7 +672,8 @@ func (w *worker) genCase(c Case, idx int64, histLen int, scheds []schedule) {
 			h := make([]Step, len(tr))
 			copy(h, tr)
 			for i := range h {
-				h[i].Ctx = sc.ctx[i%len(sc.ctx)]
+				// the cyclic context list starts at an offset that rotates with the body index
+				h[i].Ctx = sc.ctx[(i+int(idx))%len(sc.ctx)]
 			}
 			caps := stackCaps[(si+int(idx))%len(stackCaps)]
 			n, vc, class := w.runGenHistory(c, src, h, caps, sc.oneRun)
